@@ -203,6 +203,22 @@ func recordExpr(args []string) int {
 				if !add(text, map[string]any{}, site) {
 					return 2
 				}
+			case "short":
+				// short decimals (at most 8 significant digits, 6-10 decimal places): the float64 handed back must be the
+				// nearest one; about one value in 2^11 sits where a conversion that rounds twice goes wrong
+				d := 1 + rng.Intn(19999999)
+				k := 6 + rng.Intn(5)
+				ds := strconv.Itoa(d)
+				for len(ds) <= k {
+					ds = "0" + ds
+				}
+				text := ds[:len(ds)-k] + "." + ds[len(ds)-k:]
+				if rng.Intn(4) == 0 {
+					text = "(" + strconv.Itoa(d) + " / 1" + strings.Repeat("0", k) + ")"
+				}
+				if !add(text, map[string]any{}, "arith:short") {
+					return 2
+				}
 			case "prog":
 				if !recordProg(rng, *n, add) {
 					return 2
@@ -491,7 +507,7 @@ func (g *progGen) gen(depth int) string {
 		}
 		return "[" + strings.Join(parts, ", ") + "]"
 	case 9:
-		base := []string{"m", "tm", "st", "np", "nl", "this", "m.m", "undefined", "s", "sl"}[g.rng.Intn(10)]
+		base := []string{"m", "tm", "st", "np", "nl", "this", "m.m", "undefined", "s", "sl", "z", "e", "nb", "i", "t", "m.k"}[g.rng.Intn(16)]
 		return base + []string{".", "!."}[g.rng.Intn(2)] + []string{"k", "s", "n", "z", "A", "B", "N", "q", "m"}[g.rng.Intn(9)]
 	default:
 		b := progBuiltins[g.rng.Intn(len(progBuiltins))]
